@@ -199,9 +199,13 @@ def gen_coll_history(rng, path, nops, big=False, reopen=0.05, ids=None, q=None, 
 
     nops_done = [0]
 
-    def meta(id_=None):
+    cur_len = {}
+
+    def meta(id_=None, same=False):
         n = pick_size(rng, sizes, big)
-        if id_ is not None and rng.random() < 0.10:
+        if same and id_ in cur_len:
+            n = cur_len[id_]        # an update that keeps the length of the stored metadata (candidates for in-place shortcuts)
+        elif id_ is not None and rng.random() < 0.10:
             # aim a record at the growth quantum: span size = 4096 - d, d in 0..16 (remainders 0, 1..14, 15, 16 after a growth)
             import chain
             d = rng.randint(0, 16)
@@ -243,20 +247,25 @@ def gen_coll_history(rng, path, nops, big=False, reopen=0.05, ids=None, q=None, 
                 ops.append({'op': 32})
             continue
         if r < 0.34 or not live:
-            ops.append({'op': 20, 'id': id_, 'vec': P(data=random_vec_bytes(rng, q, dim)), 'meta': meta(id_)})
+            ops.append({'op': 20, 'id': id_, 'vec': P(data=random_vec_bytes(rng, q, dim)), 'meta': meta(id_, same=rng.random() < 0.15)})
             live.add(id_)
+            cur_len[id_] = len(ops[-1]['meta'].bytes())
             nops_done[0] += 1
         elif r < 0.48:
-            ops.append({'op': 21, 'id': id_, 'meta': meta(id_)})
+            ops.append({'op': 21, 'id': id_, 'meta': meta(id_, same=rng.random() < 0.35)})
+            if id_ in live:
+                cur_len[id_] = len(ops[-1]['meta'].bytes())
             nops_done[0] += 1
         elif r < 0.66:
             if rng.random() < 0.15 and live:
                 for x in sorted(live):      # delete all, then refill
                     ops.append({'op': 22, 'id': x})
                 live.clear()
+                cur_len.clear()
             else:
                 ops.append({'op': 22, 'id': id_})
                 live.discard(id_)
+                cur_len.pop(id_, None)
         elif r < 0.80:
             ops.append({'op': 23, 'id': id_})
         elif r < 0.85:
